@@ -485,6 +485,13 @@ def align_variable_names_with_convention(
         for refnode in _get_uses_of(node, ast_tree, source):
             renamings[refnode].add(substitute)
 
+    # obj.member and getattr(obj, "member") are not renamed with a member, so such members keep their name
+    accessed_attribute_names = (
+        {node.attr for node in core.walk(ast_tree, ast.Attribute)}
+        | {node.value for node in core.walk(ast_tree, ast.Constant(value=str))}
+        | {node.arg for node in core.walk(ast_tree, ast.keyword)}  # dataclass fields
+    )
+
     while funcdefs or classdefs:
         for partial_tree in classdefs.copy():
             classdefs.remove(partial_tree)
@@ -498,7 +505,11 @@ def align_variable_names_with_convention(
             for node in parsing.iter_funcdefs(partial_tree):
                 name = node.name
                 # Don't rename magic members, don't rename if there is inheritance.
-                if partial_tree.bases or parsing.is_magic_method(node):
+                if (
+                    partial_tree.bases
+                    or parsing.is_magic_method(node)
+                    or name in accessed_attribute_names
+                ):
                     renamings[node] = {name}
                 funcdefs.append(node)
                 substitute = style.rename_variable(
@@ -510,7 +521,11 @@ def align_variable_names_with_convention(
             for node in parsing.iter_assignments(partial_tree):
                 name = node.id
                 # Don't rename magic members, don't rename if there is inheritance.
-                if partial_tree.bases or (name.startswith("__") and name.endswith("__")):
+                if (
+                    partial_tree.bases
+                    or (name.startswith("__") and name.endswith("__"))
+                    or name in accessed_attribute_names
+                ):
                     renamings[node] = {name}
                 substitute = style.rename_variable(
                     name, private=parsing.is_private(name), static=False
